@@ -411,6 +411,7 @@ func (r *recorder) OnSubscribed(cl *mqtt.Client, pk packets.Packet, codes []byte
 }
 func (r *recorder) OnUnsubscribed(cl *mqtt.Client, pk packets.Packet) {
 	r.b.record(HookEvent{Hook: "OnUnsubscribed", Client: cl.ID, PID: pk.PacketID, N: int64(len(pk.Filters))})
+	hookPoint("hook.OnUnsubscribed", cl.ID)
 }
 func (r *recorder) OnPublished(cl *mqtt.Client, pk packets.Packet) {
 	r.b.record(HookEvent{Hook: "OnPublished", Client: cl.ID, Topic: pk.TopicName, Payload: string(pk.Payload)})
